@@ -33,11 +33,36 @@ var httpRespHeads = []string{
 	"HTTP/1.0 404 Not Found\r\n\r\n",
 	"HTTP/1.1 200 OK\nServer: x\n\n",
 	"HTTP/1.1 301 Moved\r\nLocation: http://example.com/\r\n\r\n",
+	"HTTP/1.1 200 OK\r\nX-A: b\r\n \r\nX-C: d\r\n\r\n",          // a blank-only line of three bytes inside the head (a folded continuation, not the end)
+	"HTTP/1.1 200 OK\r\nX-A: b\r\n \t \r\nX-C: d\r\n\r\n",       // ... of five bytes
+	"HTTP/1.1 200 OK\r\nX-A: b\r\n folded\r\n\tmore\r\n\r\n", // folded header value
+	"HTTP/1.1 204 No Content\r\nServer: x\r\n\r\n",
+	"HTTP/1.1 200 OK\r\nX-A: b\n  \nX-C: d\n\n",
 }
 var httpReqHeads = []string{
 	"GET / HTTP/1.1\r\nHost: example.com\r\n\r\n",
 	"POST /x?y=1 HTTP/1.0\r\nHost: example.com\r\nContent-Length: 3\r\n\r\n",
 	"GET /a HTTP/1.1\nHost: h\n\n",
+	"GET / HTTP/1.1\r\nHost: example.com\r\n \r\nX-C: d\r\n\r\n",
+	"GET / HTTP/1.1\r\nHost: example.com\r\nX-F: a\r\n  b\r\n\r\n",
+}
+
+// bigHead: an HTTP head that does not fit a 4096-byte read buffer (or sits right at its edge)
+func bigHead(r *rng, resp bool) string {
+	var sb strings.Builder
+	if resp {
+		sb.WriteString("HTTP/1.1 200 OK\r\n")
+	} else {
+		sb.WriteString("GET /big HTTP/1.1\r\nHost: example.com\r\n")
+	}
+	target := pick(r, []int{3300, 3500, 4000, 4090, 4096, 4100, 5000, 6500})
+	i := 0
+	for sb.Len() < target {
+		fmt.Fprintf(&sb, "Set-Cookie: c%d=%s; Path=/\r\n", i, strings.Repeat("v", 60+i%17))
+		i++
+	}
+	sb.WriteString("\r\n")
+	return sb.String()
 }
 var httpBadHeads = []string{
 	"HTTP/1.1 200 OK\r\nContent-Type: text/html\r\n", // no terminator
@@ -66,7 +91,7 @@ func genRecord(r *rng) *grec {
 	add := func(n, v string) { g.hdr = append(g.hdr, [2]string{n, v}) }
 	add("WARC-Type", typeSpelling)
 	add("WARC-Record-ID", fmt.Sprintf("<urn:uuid:%08x-0000-4000-8000-%012x>", uint32(r.next()), r.next()&0xffffffffffff))
-	date := pick(r, []string{"2020-01-02T03:04:05Z", "2017-03-06T04:03:53Z", "2022-12-31T23:59:59.123456Z"})
+	date := pick(r, []string{"2020-01-02T03:04:05Z", "2017-03-06T04:03:53Z", "2022-12-31T23:59:59.123456Z", "2020-01-02T03:04:05+01:00"})
 	if g.version == "1.0" {
 		date = "2020-01-02T03:04:05Z"
 	}
@@ -95,6 +120,8 @@ func genRecord(r *rng) *grec {
 		if r.chance(1, 5) {
 			head = pick(r, httpBadHeads) // no terminator, garbage, too short ...
 			g.badHead = true
+		} else if r.chance(1, 14) {
+			head = bigHead(r, isResp)
 		}
 		ct = "application/http;msgtype=" + g.rtype
 		if r.chance(1, 5) {
@@ -106,9 +133,9 @@ func genRecord(r *rng) *grec {
 		}
 		g.block = []byte(head + pl)
 		g.httpHead = len(head)
-		add("WARC-Target-URI", pick(r, []string{"http://example.com/", "https://www.example.org/a/b?c=d", "http://example.com/%7Euser"}))
+		add("WARC-Target-URI", pick(r, []string{"http://example.com/", "https://www.example.org/a/b?c=d", "http://example.com/%7Euser", "HTTP://EXAMPLE.com:80/a/../b", "http://example.com/%7euser?q=a+b#frag"}))
 		if r.chance(1, 2) {
-			add("WARC-IP-Address", pick(r, []string{"192.0.2.1", "2001:db8::1"}))
+			add("WARC-IP-Address", pick(r, []string{"192.0.2.1", "2001:db8::1", "2001:DB8:0:0:0:0:0:1", "2001:0db8::0001", "::ffff:192.0.2.1", "2001:db8::"}))
 		}
 		if r.chance(1, 6) {
 			ct = "text/plain" // http-looking block with another content type: generic
@@ -116,6 +143,9 @@ func genRecord(r *rng) *grec {
 		}
 	case "revisit":
 		head := pick(r, httpRespHeads)
+		if r.chance(1, 10) {
+			head = bigHead(r, true)
+		}
 		g.block = []byte(head)
 		ct = "application/http;msgtype=response"
 		add("WARC-Target-URI", "http://example.com/")
@@ -142,6 +172,8 @@ func genRecord(r *rng) *grec {
 		g.block = []byte(pick(r, blockPool))
 		if r.chance(1, 8) {
 			g.block = r.bytes(r.rangeInt(0, 150))
+		} else if r.chance(1, 20) {
+			g.block = r.bytes(r.rangeInt(4000, 9000)) // larger than the read buffers in front of the parser
 		}
 		add("WARC-Target-URI", pick(r, []string{"http://example.com/", "file:///tmp/x", "urn:x:y"}))
 		if g.rtype == "conversion" && r.chance(1, 2) {
@@ -152,7 +184,11 @@ func genRecord(r *rng) *grec {
 		add("Content-Type", ct)
 	}
 	if r.chance(1, 5) {
-		add(pick(r, []string{"X-Custom", "x-foo", "WARC-Identified-Payload-Type", "WARC-Page-ID"}), pick(r, []string{"v", "a b", "text/html", "a: b", "form feed at end\f", "nbsp\xc2\xa0", "\xe3\x80\x80", "\vvt"}))
+		add(pick(r, []string{"X-Custom", "x-foo", "WARC-Identified-Payload-Type", "WARC-Page-ID"}), pick(r, []string{"v", "a b", "text/html", "a: b", "form feed at end\f", "nbsp\xc2\xa0", "\xe3\x80\x80", "\vvt",
+			"=?windows-1252?Q?caf=E9_du_coin?=", "=?utf-8?q?caf=C3=A9?=", "=?koi8-r?b?8NLJ18XU?="}))
+	}
+	if r.chance(1, 30) {
+		add("X-Long", strings.Repeat("L", r.rangeInt(4000, 5200))) // a header line that does not fit a 4096-byte read buffer
 	}
 	if g.rtNum != 1 && r.chance(1, 4) {
 		add("WARC-Warcinfo-ID", "<urn:uuid:aaaaaaaa-0000-4000-8000-00000000000f>")
